@@ -46,6 +46,7 @@ Inductive mop :=
 | MBufClear          (* dataBuf.clear() *)
 | MBufShrink         (* dataBuf.shrink_to_fit() *)
 | MBufResize         (* dataBuf.resize(size, val) *)
+| MBufReserve        (* dataBuf.reserve(size)  (possibly under `if (size > dataBuf.capacity())`) *)
 | MOtherReset        (* other.reset() *)
 | MSelfReset         (* this->reset() *)
 | MArrNew            (* array := std::shared_ptr<T>(new T[n], std::default_delete<T[]>()), n the size argument *)
